@@ -440,7 +440,25 @@ func (cmd *mainCmd) preview(
 	comments []string,
 ) error {
 	cmd.printComments(filename, comments)
-	return diff.Text(filename, filename, originalContent, modifiedContent, cmd.Stdout)
+	// Not diff.Text: it reads the lines with a bufio.Scanner and fails with
+	// "token too long" on a line of more than 64 KiB.
+	return diff.Slices(filename, filename, splitLines(originalContent), splitLines(modifiedContent), cmd.Stdout)
+}
+
+// splitLines splits text into lines like bufio.ScanLines, which diff.Text
+// uses, without a limit on the length of a line.
+func splitLines(text []byte) []string {
+	var lines []string
+	for len(text) > 0 {
+		line := text
+		if i := bytes.IndexByte(text, '\n'); i >= 0 {
+			line, text = text[:i], text[i+1:]
+		} else {
+			text = nil
+		}
+		lines = append(lines, string(bytes.TrimSuffix(line, []byte("\r"))))
+	}
+	return lines
 }
 
 func (cmd *mainCmd) printComments(filename string, comments []string) {
